@@ -229,20 +229,17 @@ func HarnessC13MapRoundTrip() {
 		c06ObserveMap(&q, tracked, w.rm, v, refPickCombo("req", tracked, verifParam("K", 1)), "C13.map.restored")
 		// the stored node map and the leaf cache are restored entry for entry (hash and remember flag:
 		// the flag decides what later pruning and deletions keep, i.e. how the forest evolves)
-		on := m.Nodes.(*NodesMap).m
-		qn := q.Nodes.(*NodesMap).m
-		verifAssert(len(on) == len(qn), "C13.map.restored.node-count")
-		for k, leaf := range on {
-			got, ok := qn[k]
+		on := storedNodes(m)
+		verifAssert(len(on) == q.Nodes.Length(), "C13.map.restored.node-count")
+		for _, sn := range on {
+			got, ok := q.Nodes.Get(sn.pos)
 			verifAssert(ok, "C13.map.restored.node-present")
 			if ok {
-				verifAssert(got.Hash == leaf.Hash, "C13.map.restored.node-hash")
-				verifAssert(got.Remember == leaf.Remember, "C13.map.restored.node-remember-flag")
+				verifAssert(got.Hash == sn.leaf.Hash, "C13.map.restored.node-hash")
+				verifAssert(got.Remember == sn.leaf.Remember, "C13.map.restored.node-remember-flag")
 			}
 		}
-		oc := m.CachedLeaves.(*cachedLeavesMap).m
-		qc := q.CachedLeaves.(*cachedLeavesMap).m
-		verifAssert(len(oc) == len(qc), "C13.map.restored.cache-count")
+		verifAssert(m.CachedLeaves.Length() == q.CachedLeaves.Length(), "C13.map.restored.cache-count")
 		if verifParam("evolve", 0) == 1 && m.Full {
 			b := w.rm.refBlock(v, 1, 1)
 			verifAssert(q.Modify(c01Leaves(b.adds, false), b.hashes, b.proof) == nil, "C13.map.restored.modify")
